@@ -1193,3 +1193,49 @@ def loop_target_clobbers(fn_node):
                 out.append((loop, f"loop-target-clobbers:{name}", f"`for {A.unparse(loop.target)} in {A.unparse(loop.iter)[:40]}` reuses `{name}`, which was bound at line {before[0].lineno} "
                             f"(`{A.unparse(before[0])[:50]}`) and is read again at line {reads[0].lineno}: after the loop the name no longer holds that value"))
     return out
+
+
+def keyerror_on_defaultdict(cls_info):
+    """``try: items = self._dict[key]  except KeyError: ...`` where ``self._dict`` is (or can be) a ``defaultdict``: the lookup
+    never raises — it *creates* the entry from the factory — so the fallback never runs and a lookup leaves a stored,
+    possibly stale, default behind (``.get(key)`` neither inserts nor raises)."""
+    out = []
+    dd = set()
+    for m in cls_info.methods.values():
+        ps = m.params()
+        if not ps:
+            continue
+        for t, v, st in A.assignments(m.node):
+            a = A.self_attr(t, ps[0])
+            if a and isinstance(v, ast.Call) and A.unparse(v.func).split(".")[-1] == "defaultdict":
+                dd.add(a)
+    if not dd:
+        return out
+    for mname, m in cls_info.methods.items():
+        ps = m.params()
+        if not ps:
+            continue
+        for t in ast.walk(m.node):
+            if not isinstance(t, ast.Try) or not any("KeyError" in _handler_names(h) or "LookupError" in _handler_names(h) for h in t.handlers):
+                continue
+            for n in (x for s in t.body for x in ast.walk(s)):
+                if isinstance(n, ast.Subscript) and isinstance(n.ctx, ast.Load) and A.self_attr(n.value, ps[0]) in dd:
+                    out.append((n, f"keyerror-on-defaultdict:{A.self_attr(n.value, ps[0])}", f"{cls_info.name}.{mname} looks `{A.unparse(n)}` up under `except KeyError`, but "
+                                f"`self.{A.self_attr(n.value, ps[0])}` is built as a defaultdict: the lookup never raises, it inserts the factory's value — the fallback is dead and every "
+                                f"lookup of a missing key stores a default that later code takes for real data"))
+    return out
+
+
+def mode_mask_drops_special_bits(fn_node):
+    """``mode & 0o777`` on a file mode: the permission part of a mode is 0o7777 (``stat.S_IMODE``); masking with 0o777
+    silently strips setuid / setgid / sticky from what is recorded or applied."""
+    out = []
+    for n in ast.walk(fn_node):
+        if isinstance(n, ast.BinOp) and isinstance(n.op, ast.BitAnd):
+            for a, b in ((n.left, n.right), (n.right, n.left)):
+                if isinstance(b, ast.Constant) and b.value == 0o777:
+                    nm = a.attr if isinstance(a, ast.Attribute) else (a.id if isinstance(a, ast.Name) else (A.unparse(a) if isinstance(a, ast.Subscript) else None))
+                    if nm and ("mode" in nm.lower() or "ST_MODE" in nm):
+                        out.append((n, "mode-mask-0o777", f"`{A.unparse(n)}` keeps only rwx bits of a file mode: setuid, setgid and sticky (0o7000) are dropped — the permission mask "
+                                    f"of a mode is 0o7777 (stat.S_IMODE)"))
+    return out
